@@ -12,13 +12,13 @@ import (
 
 func init() {
 	register("C11", "Decides structural necessary conditions of 'the lenient X.509 parser is error-coherent and raw-exact': "+
-		"(R1) every return of the certificate, TBSCertificate, certificate-list, CRL, key and CSR parsers has one of the shapes (object, nil), (object, error classified non-fatal by IsFatal) or (nil, fatal error) — evaluated per abstract outcome of every call that feeds the return, with the Fatal flags of *Errors entries read from the errorInfo table — and IsFatal itself has the decision table nil⇒false, NonFatalErrors⇒false, *Errors⇒Fatal(), else true; only plain errors are ever put into a NonFatalErrors list; "+
+		"(R1) every return of the certificate, TBSCertificate, certificate-list, CRL, key and CSR parsers has one of the shapes (object, nil), (object, error classified non-fatal by IsFatal) or (nil, fatal error) — evaluated per abstract outcome of every call that feeds the return, with the Fatal flags of *Errors entries read from the errorInfo table, a remembered error taken as the nil test that guards the return found it — and IsFatal itself has the decision table nil⇒false, NonFatalErrors⇒false, *Errors⇒Fatal(), else true; only plain errors are ever put into a NonFatalErrors list; "+
 		"(R2) every strict-parse→lax-retry pair re-parses the same bytes into the same destination, returns the lax error when the retry fails and records the strict error as non-fatal when it succeeds; "+
 		"(R3) Raw, RawTBSCertificate, RawSubjectPublicKeyInfo, RawSubject and RawIssuer are assigned, by parseCertificate only, from the raw-content fields that the ASN.1 decoder filled from the caller's input, and the entry points hand parseCertificate the structure decoded from their own input; "+
-		"(R4) the per-certificate step of ParseCertificates is the step of ParseCertificate (same strict/lax sequence on the remaining bytes, same parseCertificate call on the decoded structure, same error merge, same final error gate), each certificate starting where the previous one ended; "+
+		"(R4) the per-certificate step of ParseCertificates is the step of ParseCertificate (same strict/lax sequence on the remaining bytes, same parseCertificate call on the decoded structure, same error merge, same final error gate), each certificate starting where the previous one ended; in both functions the structure the strict parse fills is zero-valued whenever that parse runs (its allocation executed, or it was cleared as a whole, after the last write into it — on every way round the loop: the decoder leaves absent OPTIONAL fields as they are), the lax retry and parseCertificate get it as this certificate's decode left it; whether the loop splits first and converts a list afterwards or decodes, converts and appends in one round, every round that goes on to the next has appended its certificate to the loop-carried result (empty on entry) or has left a loop-carried value non-nil that no later round clears and under which no list is returned, and every list returned is that result after the last round; after a fatal conversion error only returns without an object can execute — at once, or under such a mark while the rest of the input is still split (the error is parseCertificate's, or the lax error of a later certificate, which R2 owns); non-fatal conversion errors reach the collector that is reported, directly or through a second list appended to it before any list of certificates is returned; "+
 		"(R7) every name list parseSANExtension fills takes part in the 'parsed nothing' test of a critical subjectAltName; "+
 		"(R8) in every parser function the fork shares by name and shape with the crypto/x509 of the toolchain (parseNameConstraintsExtension, parseSANExtension, the key parsers, the name helpers), every non-error result, every field written through a pointer parameter and every field of a returned object depends — by data flow through values, memory cells and per-call-site summaries of closures and package functions, and by the conditions that select between definitions — on every input part (parameter, call into another package identified by callee, constant arguments and written argument) the standard library computes it from: the 'unhandled' verdict of a name-constraints extension on the permitted and on the excluded subtrees, each Permitted…/Excluded… list on its own subtree, each SAN list on the extension bytes. "+
-		"NOT covered: totality (absence of panics, termination) of the parsers; agreement of field values with crypto/x509 on well-formed certificates beyond (R6)-(R8) — R8 establishes which inputs a value depends on, not the function computed from them (an inverted flag or a wrong constant passes), and does not compare functions the fork implements over other decoders than the library (parseCertificate and its extension switch, parsePublicKey, the CSR parser); that a well-formed certificate parses with no error at all; that the ASN.1 decoder's RawContent/FullBytes are sub-slices of its input (C10.R4); nil entries inside a returned certificate slice.",
+		"NOT covered: totality (absence of panics, termination) of the parsers; agreement of field values with crypto/x509 on well-formed certificates beyond (R6)-(R8) — R8 establishes which inputs a value depends on, not the function computed from them (an inverted flag or a wrong constant passes), and does not compare functions the fork implements over other decoders than the library (parseCertificate and its extension switch, parsePublicKey, the CSR parser); that a well-formed certificate parses with no error at all; that the ASN.1 decoder's RawContent/FullBytes are sub-slices of its input (C10.R4); nil entries inside a returned certificate slice; which of several fatal errors a concatenation reports and the order of the entries of its NonFatalErrors; R4's structure states are joined over all paths (a reset skipped only on rounds after which parseCertificate can no longer run is reported although harmless) and its marks are nil-able loop-carried values (a boolean 'failed' flag is undecided, i.e. reported).",
 		runC11)
 }
 
@@ -390,6 +390,8 @@ func certStep(r *Run, fn *ssa.Function, pairs []laxPair) (map[string]string, *la
 	d["lax retry reads the bytes of the strict parse"] = fmt.Sprint(sameValue(r, sa[0], la[0]))
 	d["lax retry fills the object of the strict parse"] = fmt.Sprint(sameValue(r, sa[1], la[1]))
 	d["destination type"] = argType(sa[1])
+	// the structure decoded into: zero-valued when the strict parse starts (rules_t8c11.go)
+	c11StepCell(r, fn, pair, pc, d)
 	// error merge after parseCertificate
 	perr := errValueOf(pc)
 	if perr == nil {
@@ -412,18 +414,9 @@ func certStep(r *Run, fn *ssa.Function, pairs []laxPair) (map[string]string, *la
 		return d, pair, pc
 	}
 	nk, ok := r.D.Classify(nt).Key, r.D.D(okv)
-	// fatal ⇒ (nil, that error)
-	reach := r.D.Walk(fn, Sigma{nk: "non", ok: "F"}, pc.Block(), nil)
-	var fs []string
-	for _, ret := range reachableReturns(fn, reach) {
-		e := "other"
-		if ret.Results[1] == perr {
-			e = "parseCertificate's error"
-		}
-		fs = append(fs, "("+r.D.D(ret.Results[0])+", "+e+")")
-	}
-	sort.Strings(fs)
-	d["fatal parseCertificate error ⇒ returns"] = strings.Join(uniq(fs), " ")
+	// fatal ⇒ (nil, that error): at once, or — when the loop goes on splitting the rest of the
+	// input — under a loop-carried mark that stays set (rules_t8c11.go)
+	d["fatal parseCertificate error ⇒ returns"] = c11FatalReturns(r, fn, pair, pc, perr, Sigma{nk: "non", ok: "F"})
 	// non-fatal ⇒ merged into the collector on every path
 	var merges []*ssa.Store
 	for _, st := range r.StoresTo(fn, "&(new:x509.NonFatalErrors#*.Errors)") {
@@ -437,8 +430,9 @@ func certStep(r *Run, fn *ssa.Function, pairs []laxPair) (map[string]string, *la
 	for _, m := range merges {
 		stop[m.Block()] = true
 	}
-	reach = r.D.Walk(fn, Sigma{nk: "non", ok: "T"}, pc.Block(), stop)
+	reach := r.D.Walk(fn, Sigma{nk: "non", ok: "T"}, pc.Block(), stop)
 	d["non-fatal parseCertificate errors merged before any return"] = fmt.Sprint(len(merges) > 0 && len(reachableReturns(fn, reach)) == 0)
+	d["non-fatal parseCertificate errors reach the reported collector"] = c11NonFatalReported(r, fn, perr)
 	r.Valuations += 2
 	// final gate
 	for _, hv := range []string{"T", "F"} {
@@ -682,14 +676,17 @@ func c11Siblings(r *Run, pairs []laxPair) {
 	d1, p1, pc1 := certStep(r, one, pairs)
 	dn, pn, pcn := certStep(r, many, pairs)
 	want := map[string]string{
-		"strict→lax pairs":                                           "1",
-		"parseCertificate calls":                                     "1",
-		"lax retry reads the bytes of the strict parse":              "true",
-		"lax retry fills the object of the strict parse":             "true",
-		"fatal parseCertificate error ⇒ returns":                     "(nil, parseCertificate's error)",
-		"non-fatal parseCertificate errors merged before any return": "true",
-		"HasError=T ⇒ returns":                                       "(object, the collector)",
-		"HasError=F ⇒ returns":                                       "(object, nil)",
+		"strict→lax pairs":                                                                    "1",
+		"parseCertificate calls":                                                              "1",
+		"lax retry reads the bytes of the strict parse":                                       "true",
+		"lax retry fills the object of the strict parse":                                      "true",
+		"strict parse fills a zero-valued structure":                                          "true",
+		"lax retry fills a structure that holds nothing but this certificate's strict decode": "true",
+		"fatal parseCertificate error ⇒ returns":                                              "(nil, parseCertificate's error)",
+		"non-fatal parseCertificate errors merged before any return":                          "true",
+		"non-fatal parseCertificate errors reach the reported collector":                      "true",
+		"HasError=T ⇒ returns":                                                                "(object, the collector)",
+		"HasError=F ⇒ returns":                                                                "(object, nil)",
 	}
 	keys := map[string]bool{}
 	for k := range d1 {
@@ -725,8 +722,20 @@ func c11Siblings(r *Run, pairs []laxPair) {
 			list = ia.X
 		}
 	}
-	if list == nil {
-		r.Fail("ParseCertificates:parses-decoded-structures", r.Where(pcn), "undecided: parseCertificate's argument "+r.D.D(arg)+" is not an element of a list")
+	if cell, isCell := arg.(*ssa.Alloc); list == nil && isCell {
+		// one pass: the structure is converted in the round that decoded it
+		flow := c11CellFlow(many, cell, pn.strict, pn.lax)
+		st := flow[pcn]
+		r.Check("ParseCertificates:parses-decoded-structures", sameValue(r, arg, dest) && c11Only(st, c11Dec), r.Where(pcn),
+			fmt.Sprintf("parseCertificate runs on %s; the strict parse fills %s; when parseCertificate runs the structure holds: %s", r.D.D(arg), r.D.D(dest), c11KindsString(st)))
+		why := c11OneCertPerRound(r, many, pn.strict, pcn)
+		detail := "every round decodes one certificate and either appends parseCertificate's result to the loop-carried result list (empty on entry) or leaves a loop-carried mark set for good under which only (nil, error) is returned; every list handed back is that result after the last round"
+		if why != "" {
+			detail = why
+		}
+		r.Check("ParseCertificates:result-i-is-certificate-i", why == "", r.Where(pcn), detail)
+	} else if list == nil {
+		r.Fail("ParseCertificates:parses-decoded-structures", r.Where(pcn), "undecided: parseCertificate's argument "+r.D.D(arg)+" is neither an element of a list nor the structure of this round")
 	} else {
 		elems, okl := appendedElems(list, map[ssa.Value]bool{})
 		ok := okl && len(elems) > 0
